@@ -27,7 +27,7 @@ extern "C" void vh_c12_real_createid() {
 }
 
 // ids of all entities are well formed, pairwise distinct, and unchanged by any operation of the history menu
-#define N_OPS 14
+#define N_OPS 17
 extern "C" void vh_c12_stable() {
     nixsym_declare_reach("compared");
     World w;
@@ -37,6 +37,7 @@ extern "C" void vh_c12_stable() {
     nixsym_assert(well_formed_uuid(fid), "file id well formed");
     for (auto &kv : before) if (kv.first != "<file>") nixsym_assert(well_formed_uuid(kv.first), "entity id well formed");
     // name -> id for named top-level entities (ids must stay attached to the same entity)
+    std::string id_tagu = w.tag_u.id(), id_dau = w.da_u.id(), id_grp = w.grp.id(), id_mtag = w.mtag.id();
     std::string id_da1 = w.da1.id(), id_tag = w.tag.id(), id_sec = w.sec.id(), id_df = w.df.id(), id_b = w.b.id(), id_prop = w.prop.id(), id_src = w.src.id();
     uint32_t op = nixsym_choice("op", N_OPS);
     try {
@@ -54,13 +55,18 @@ extern "C" void vh_c12_stable() {
         case 10: w.b.deleteDataArray("da2"); w.b.createDataArray("da2", "t", DataType::Int32, NDSize({1})); break;   // a new entity: must get a fresh id
         case 11: w.grp.dataArrays(std::vector<DataArray>{w.da2}); break;
         case 12: w.src.createSource("n", "t"); w.b.createSource("n", "t"); break;
+        case 14: w.b.createTag(UUID_NAME, "t", {1.0}); break;                                      // re-create by a UUID-shaped name: rejected
+        case 15: w.b.createDataArray(UUID_NAME, "t", DataType::Double, NDSize({1})); break;
+        case 16: w.b.createGroup("grp", "t"); w.b.createMultiTag("mtag", "t", w.pos); w.b.createSource("src", "t"); break;
         case 13: { drop_handles(w); w.f.close(); w.f = File::open(WORLD_FILE, FileMode::ReadWrite); rebind_world(w); break; }
         }
     } catch (const std::exception &) {}
     nixsym_assert(w.f.id() == fid, "file id changed without forceId");
     nixsym_assert(w.b.getDataArray("da1").id() == id_da1 && w.b.getTag("tag").id() == id_tag && w.f.getSection("sec").id() == id_sec &&
                   w.b.getDataFrame("df").id() == id_df && w.f.getBlock("blk").id() == id_b && w.f.getSection("sec").getProperty("temperature").id() == id_prop &&
-                  w.b.getSource("src").id() == id_src, "an entity's id changed during its lifetime");
+                  w.b.getSource("src").id() == id_src && w.b.getTag(UUID_NAME).id() == id_tagu && w.b.getDataArray(UUID_NAME).id() == id_dau &&
+                  w.b.getGroup("grp").id() == id_grp && w.b.getMultiTag("mtag").id() == id_mtag, "an entity's id changed during its lifetime");
+    nixsym_assert(w.tag_u.id() == id_tagu && w.da_u.id() == id_dau, "id seen through a handle obtained earlier changed");
     EMap after = collect(w.f);
     for (auto &kv : after) {
         if (kv.first == "<file>") continue;
